@@ -93,14 +93,14 @@ def boolMap (m : Map Bool) : String := joinWith "+" (m.map fun (k, v) => k ++ "=
 
 def snap : Res → String
   | .ing c =>
-    let mins := c.minions.map fun m => s!"{m.md.key}@g{m.md.gen}({boolMap m.validPaths})"
+    let mins := c.minions.map fun m => s!"{m.md.key}@g{m.md.gen}u{m.md.uid}({boolMap m.validPaths})"
     let cw := c.childWarnings.filterMap fun (k, ws) => if ws.isEmpty then none else some s!"{k}({codes ws})"
-    s!"Ingress/{c.md.key}\{g{c.md.gen}!a{(c.md.ann.splitOn "#").headD ""}!M{b01 c.isMaster}!vh:{boolMap c.validHosts}!min:{joinWith "+" mins}!w:{codes c.warnings}!cw:{joinWith "+" cw}}"
+    s!"Ingress/{c.md.key}\{g{c.md.gen}u{c.md.uid}!a{(c.md.ann.splitOn "#").headD ""}!M{b01 c.isMaster}!vh:{boolMap c.validHosts}!min:{joinWith "+" mins}!w:{codes c.warnings}!cw:{joinWith "+" cw}}"
   | .vs c =>
-    let vsrs := c.vsrs.map fun v => s!"{v.key}@g{v.gen}"
-    s!"VirtualServer/{c.md.key}\{g{c.md.gen}!h:{c.host}!vsr:{joinWith "+" vsrs}!p:{c.httpPort}/{c.httpsPort}!ip:{c.httpV4},{c.httpV6},{c.httpsV4},{c.httpsV6}!w:{codes c.warnings}}"
+    let vsrs := c.vsrs.map fun v => s!"{v.key}@g{v.gen}u{v.uid}"
+    s!"VirtualServer/{c.md.key}\{g{c.md.gen}u{c.md.uid}!h:{c.host}!vsr:{joinWith "+" vsrs}!p:{c.httpPort}/{c.httpsPort}!ip:{c.httpV4},{c.httpV6},{c.httpsV4},{c.httpsV6}!w:{codes c.warnings}}"
   | .ts c =>
-    s!"TransportServer/{c.md.key}\{g{c.md.gen}!h:{c.host}!l:{c.lname}!p:{c.port}!ip:{c.v4},{c.v6}!w:{codes c.warnings}}"
+    s!"TransportServer/{c.md.key}\{g{c.md.gen}u{c.md.uid}!h:{c.host}!l:{c.lname}!p:{c.port}!ip:{c.v4},{c.v6}!w:{codes c.warnings}}"
 
 def obs (s : State) (cs : List Change) (ps : List Problem) : String :=
   let c := cs.map fun ch => s!"{if ch.op = .delete then "D" else "U"}~{snap ch.res}~e{b01 ch.err}"
